@@ -801,6 +801,10 @@ func c02Switches(c *Ctx, s cmpSite, key string) {
 }
 
 func c02Primitives(c *Ctx, all map[*ssa.Function]bool) {
+	primitivesFailClosed(c, "R02d", all, true)
+}
+
+func primitivesFailClosed(c *Ctx, rule string, all map[*ssa.Function]bool, withVerifyCmd bool) int {
 	p := c.P
 	prims := map[string]bool{
 		"crypto/rsa.VerifyPKCS1v15": true, "crypto/rsa.VerifyPSS": true, "crypto/ecdsa.Verify": true,
@@ -820,7 +824,7 @@ func c02Primitives(c *Ctx, all map[*ssa.Function]bool) {
 		fns = append(fns, f)
 	}
 	// the verify command itself
-	if v := p.Func("cmdline/verify.verifyOne"); v != nil {
+	if v := p.Func("cmdline/verify.verifyOne"); v != nil && withVerifyCmd {
 		fns = append(fns, v)
 	}
 	sort.Slice(fns, func(i, j int) bool { return p.FName(fns[i]) < p.FName(fns[j]) })
@@ -845,13 +849,13 @@ func c02Primitives(c *Ctx, all map[*ssa.Function]bool) {
 				var failEdges map[edge]bool
 				if name == "crypto/ecdsa.Verify" {
 					if !valueIsUsed(call, map[ssa.Value]bool{}) {
-						c.Fail("R02d", key, p.Pos(call.Pos()), "signature check result discarded")
+						c.Fail(rule, key, p.Pos(call.Pos()), "signature check result discarded")
 						continue
 					}
 					failEdges = passEdges(fn, Guard{Match: func(f Fact) bool { return f.V == ssa.Value(call) && f.Kind == IsFalse }})
 				} else {
 					if errDisposition(call) == errDropped {
-						c.Fail("R02d", key, p.Pos(call.Pos()), "verification error discarded: a bad signature is accepted")
+						c.Fail(rule, key, p.Pos(call.Pos()), "verification error discarded: a bad signature is accepted")
 						continue
 					}
 					failEdges = passEdges(fn, errNonNilGuard(errValueOf(call)))
@@ -863,7 +867,7 @@ func c02Primitives(c *Ctx, all map[*ssa.Function]bool) {
 					}
 				}
 				if direct || len(failEdges) == 0 {
-					c.Pass("R02d", key, p.Pos(call.Pos()), "result handed to the caller")
+					c.Pass(rule, key, p.Pos(call.Pos()), "result handed to the caller")
 					continue
 				}
 				// a failure may lead to another primitive (fallback) but not to success
@@ -974,11 +978,14 @@ func c02Primitives(c *Ctx, all map[*ssa.Function]bool) {
 					bad = true
 					path = p.witness(fn, pred, r.Block().Index)
 				}
-				c.Check(!bad, "R02d", key, p.Pos(call.Pos()), "failure ends in an error (or another verification attempt)", "a failed signature / integrity verification can end in a success return", path...)
+				c.Check(!bad, rule, key, p.Pos(call.Pos()), "failure ends in an error (or another verification attempt)", "a failed signature / integrity verification can end in a success return", path...)
 			}
 		}
 	}
-	c.Check(n >= 10, "R02d", "verification primitive call sites", "-", fmt.Sprintf("%d", n), fmt.Sprintf("only %d call sites found", n))
+	if withVerifyCmd {
+		c.Check(n >= 10, rule, "verification primitive call sites", "-", fmt.Sprintf("%d", n), fmt.Sprintf("only %d call sites found", n))
+	}
+	return n
 }
 
 func c02Misc(c *Ctx) {
